@@ -77,6 +77,32 @@ def check(run):
                   'the peer endpoint reported by accept is %s, not channel::visible_ep[0]: behind a NAT it differs from the accepted socket\'s remote_endpoint()' % q.render(g, rhs),
                   'reports visible_ep[0] (the initiator as seen by the acceptor)')
 
+    run.clause('the out-parameters of an accept (m_accept_into, m_remote_endpoint) are stored before anything that can complete the accept runs: no call reaching check_accept_queue() precedes them')
+    import p04
+    caq_u = fx.fn1(A + '::check_accept_queue').usr
+    nst = 0
+    for g in fx.fn(A + '::async_accept'):
+        run.touch(g)
+        completing = []
+        for c in g.calls():
+            tg = fx.by_usr(c.get('usr')) if c.get('usr') else None
+            if tg and (c['usr'] == caq_u or caq_u in p04.reachable(fx, tg[0])):
+                completing.append(c)
+        for a in q.field_accesses(g, {A + '::m_remote_endpoint', A + '::m_accept_into'}):
+            if a.kind != 'assign':
+                continue
+            rhs = q.strip_casts(a.site['args'][1] if a.site['k'] == 'call' else a.site.get('rhs'))
+            if is_node(rhs) and rhs['k'] == 'nullptr':
+                continue
+            nst += 1
+            late = [c for c in completing if q.precedes(g, c, a.site) or (g.cfg._reaches(g.cfg.node_block(c), g.cfg.node_block(a.site)) and g.cfg.node_block(c) != g.cfg.node_block(a.site))]
+            run.check(not late, 'R4', 'accept-state-before-completion', '%s%s: %s' % (g.norm, g.sig[:40], a.field.split('::')[-1]), g.loc(a.node),
+                      '%s is stored after a call (%s) that reaches check_accept_queue(): when a connection is already queued the accept completes inside that call, before the pointer is set, and the caller\'s %s is never written'
+                      % (a.field.split('::')[-1], q.render(g, late[0])[:50] if late else '', 'peer endpoint' if 'remote' in a.field else 'socket'),
+                      'stored before check_accept_queue() can run')
+    if nst < 2:
+        run.broke('tcp::acceptor::async_accept: stores of m_accept_into / m_remote_endpoint not found')
+
     run.clause('refusal: on the error path of async_connect the channel is dropped and the completion goes through m_connect_timer armed with a positive constant; never post')
     ac = fx.fn1(T + '::async_connect')
     run.touch(ac)
